@@ -3,6 +3,7 @@
 #[verifier::external_body]
 pub fn shim_read_u8<R: std::io::Read>(source: &mut R) -> (r: std::io::Result<u8>)
     ensures
+        (*old(source)).reliable() ==> (*final(source)).reliable() && (r is Ok <==> (*old(source)).rest().len() >= 1),
         r is Ok ==> (*old(source)).rest().len() >= 1 && r->Ok_0 == (*old(source)).rest()[0]
             && (*final(source)).rest() == (*old(source)).rest().skip(1),
 { unimplemented!() /* stands for: source.read_u8() */ }
